@@ -11,6 +11,10 @@ TRUSTED_BASE = [
 HOOK_COMMITS = []
 
 PROPS = {
+    "C01": {
+        "rule": "TODO",
+        "level_text": "TODO", "level_note": "TODO",
+    },
     "C20": {
         "rule": "all pairs of entry lists of length 0..4 over an alphabet of pairwise distinct entries (each in two equal presentations: other time zone, rebuilt record) plus random lists of length 5..16 with shuffles, single-entry perturbations and multiplicity changes; a case is non-trivial when both lists have the same length > 1; distinct = distinct rendered pair",
         "assumptions": [
